@@ -21,9 +21,13 @@ VARIABLES tid,        \* trace being validated
           rdy,        \* characters that were readable (kernel-held) when the outstanding call started
           recv0,      \* Len(recv) when the outstanding call started
           tbl,        \* run(): response kind of every event, in the order of the event table (<<>>: not inside run())
-          owe         \* run(): the last outcome selected an event whose response (a string) has not been sent yet
+          owe,        \* run(): the last outcome selected an event whose response (a string) has not been sent yet
+          cmd         \* REPLWrapper: [on, want, acc, intr] - inside run_command: the output the REPL produced for this
+                      \* command, the `before`s collected so far, whether SIGINT was sent
 
-tvars == <<recv, pend, handed, eof, phase, call, last, tid, l, verdict, obsHanded, rdy, recv0, tbl, owe>>
+tvars == <<recv, pend, handed, eof, phase, call, last, tid, l, verdict, obsHanded, rdy, recv0, tbl, owe, cmd>>
+
+NoCmd == [on |-> FALSE, want |-> <<>>, acc |-> <<>>, intr |-> FALSE]
 
 Ev == Traces[tid].ev
 E  == Ev[l]
@@ -33,7 +37,7 @@ Step == l' = l + 1 /\ tid' = tid
 Fail(v) == verdict' = v /\ UNCHANGED avars
 Same == UNCHANGED <<verdict>>
 
-TInit == /\ AInit /\ tid = 1 /\ l = 1 /\ verdict = "ok" /\ obsHanded = <<>> /\ rdy = 0 /\ recv0 = 0 /\ tbl = <<>> /\ owe = FALSE
+TInit == /\ AInit /\ tid = 1 /\ l = 1 /\ verdict = "ok" /\ obsHanded = <<>> /\ rdy = 0 /\ recv0 = 0 /\ tbl = <<>> /\ owe = FALSE /\ cmd = NoCmd
 
 FirstFailing(cs) ==   \* cs: sequence of <<holds, name>>
   LET bad == {i \in 1..Len(cs) : ~cs[i][1]} IN
@@ -45,7 +49,7 @@ TCall ==
      ELSE IF owe THEN Fail("C12:matched-event-not-answered")
      ELSE Call(E.pats, E.W, E.tmo, E.exact) /\ Same
   /\ rdy' = E.ready /\ recv0' = Len(recv)
-  /\ Step /\ UNCHANGED <<obsHanded, tbl, owe>>
+  /\ Step /\ UNCHANGED <<obsHanded, tbl, owe, cmd>>
 
 TRead ==
   /\ Has("read")
@@ -53,31 +57,31 @@ TRead ==
      THEN ReadData(E.d) /\ Same
      ELSE Fail(IF phase = "idle" THEN "C03:read-after-contract-returned"
                ELSE IF eof THEN "C04:read-data-after-eof" ELSE "C05:read-with-negative-timeout")
-  /\ Step /\ UNCHANGED <<obsHanded, rdy, recv0, tbl, owe>>
+  /\ Step /\ UNCHANGED <<obsHanded, rdy, recv0, tbl, owe, cmd>>
 
 TReadEof ==
   /\ Has("reof")
   /\ IF phase = "loop" /\ call.tmo # "neg"
      THEN ReadEOF /\ Same
      ELSE Fail(IF phase = "idle" THEN "C03:read-after-contract-returned" ELSE "C05:read-with-negative-timeout")
-  /\ Step /\ UNCHANGED <<obsHanded, rdy, recv0, tbl, owe>>
+  /\ Step /\ UNCHANGED <<obsHanded, rdy, recv0, tbl, owe, cmd>>
 
 TReadTmo ==
   /\ Has("rtmo")
   /\ IF phase = "loop" /\ call.tmo \notin {"neg"}
      THEN (IF call.tmo = "none" THEN Fail("harness:read-timeout-with-timeout-None") ELSE Timeout /\ Same)
      ELSE Fail(IF phase = "idle" THEN "C03:read-after-contract-returned" ELSE "C05:read-with-negative-timeout")
-  /\ Step /\ UNCHANGED <<obsHanded, rdy, recv0, tbl, owe>>
+  /\ Step /\ UNCHANGED <<obsHanded, rdy, recv0, tbl, owe, cmd>>
 
 TReadErr ==
   /\ Has("rerr")
   /\ IF phase = "loop" THEN ReadError /\ Same ELSE Fail("C03:read-after-contract-returned")
-  /\ Step /\ UNCHANGED <<obsHanded, rdy, recv0, tbl, owe>>
+  /\ Step /\ UNCHANGED <<obsHanded, rdy, recv0, tbl, owe, cmd>>
 
 TSetBuf ==
   /\ Has("setbuf")
   /\ SetBuffer(E.v) /\ Same
-  /\ Step /\ obsHanded' = obsHanded /\ UNCHANGED <<rdy, recv0, tbl, owe>>
+  /\ Step /\ obsHanded' = obsHanded /\ UNCHANGED <<rdy, recv0, tbl, owe, cmd>>
 
 \* asyncio path: a chunk handed to the protocol after the future was resolved or cancelled.
 \* If the contract still has the call outstanding, the only explanation is that its deadline fired.
@@ -92,7 +96,7 @@ TLate ==
      ELSE IF phase = "idle" /\ ~eof
      THEN /\ LateData(E.d) /\ Same
      ELSE Fail("C14:data-after-eof-or-late-data-without-deadline")
-  /\ Step /\ UNCHANGED <<obsHanded, rdy, recv0, tbl, owe>>
+  /\ Step /\ UNCHANGED <<obsHanded, rdy, recv0, tbl, owe, cmd>>
 
 \* The expected outcome at a `ret`: the contract's last outcome, or - when the
 \* call's own deadline fired without a read raising TIMEOUT - the Timeout outcome.
@@ -146,13 +150,14 @@ TRet ==
         /\ obsHanded' = IF o.kind = "match" THEN obsHanded \o o.before \o o.after
                         ELSE IF o.kind = "eof" THEN obsHanded \o o.before ELSE obsHanded
   /\ owe' = (tbl # <<>> /\ E.idx >= 0 /\ E.idx < Len(tbl) /\ tbl[E.idx + 1] \in {"str", "cb_str"})
+  /\ cmd' = IF cmd.on /\ E.kind = "match" THEN [cmd EXCEPT !.acc = cmd.acc \o E.before] ELSE cmd
   /\ Step /\ UNCHANGED <<rdy, recv0, tbl>>
 
 (* ---- run(): the loop around expect (C12) ------------------------------------------------- *)
 TRunStart ==
   /\ Has("run")
   /\ tbl' = E.resp /\ owe' = FALSE /\ Same
-  /\ Step /\ UNCHANGED <<avars, obsHanded, rdy, recv0>>
+  /\ Step /\ UNCHANGED <<avars, obsHanded, rdy, recv0, cmd>>
 
 \* a response was written to the child: exactly one per occurrence of an event whose response is a string
 TSend ==
@@ -161,14 +166,14 @@ TSend ==
                                 <<owe, "C12:response-sent-twice-or-without-occurrence">>,
                                 <<E.idx = last.idx, "C12:response-of-another-event">> >>)
   /\ owe' = FALSE
-  /\ Step /\ UNCHANGED <<avars, obsHanded, rdy, recv0, tbl>>
+  /\ Step /\ UNCHANGED <<avars, obsHanded, rdy, recv0, tbl, cmd>>
 
 \* a callback ran: for the event that was just selected, with the state dictionary
 TCb ==
   /\ Has("cb")
   /\ verdict' = FirstFailing(<< <<E.idx = last.idx, "C12:callback-of-another-event">>,
                                 <<E.dict_ok, "C12:callback-without-state-dictionary">> >>)
-  /\ Step /\ UNCHANGED <<avars, obsHanded, rdy, recv0, tbl, owe>>
+  /\ Step /\ UNCHANGED <<avars, obsHanded, rdy, recv0, tbl, owe, cmd>>
 
 \* run() returned: the child's whole output up to the stop point, each piece once
 TRunRet ==
@@ -178,7 +183,35 @@ TRunRet ==
                                 <<E.result = want, "C12:output-not-exactly-once">>,
                                 <<E.order_ok, "C12:event-priority-order">> >>)
   /\ tbl' = <<>> /\ owe' = FALSE
-  /\ Step /\ UNCHANGED <<avars, obsHanded, rdy, recv0>>
+  /\ Step /\ UNCHANGED <<avars, obsHanded, rdy, recv0, cmd>>
+
+(* ---- REPLWrapper.run_command (C16) ----------------------------------------------------------- *)
+\* a command is submitted; E.out is the output the REPL will produce for it (known by construction)
+TCmd ==
+  /\ Has("cmd")
+  /\ cmd' = [on |-> TRUE, want |-> E.out, acc |-> <<>>, intr |-> FALSE] /\ Same
+  /\ Step /\ UNCHANGED <<avars, obsHanded, rdy, recv0, tbl, owe>>
+
+TKill ==
+  /\ Has("kill")
+  /\ cmd' = [cmd EXCEPT !.intr = TRUE] /\ Same
+  /\ Step /\ UNCHANGED <<avars, obsHanded, rdy, recv0, tbl, owe>>
+
+\* run_command returned (or raised)
+TCmdRet ==
+  /\ Has("cmdret")
+  /\ verdict' = FirstFailing(
+        IF E.incomplete THEN
+           << <<E.raised = "ValueError", "C16:incomplete-input-does-not-raise-ValueError">>,
+              <<cmd.intr, "C16:incomplete-input-not-cancelled">>,
+              <<pend = <<>>, "C16:text-left-pending-after-cancelled-command">> >>
+        ELSE
+           << <<E.raised = "", "C16:complete-command-raised">>,
+              <<E.val = cmd.acc, "C16:return-value-is-not-the-text-before-the-prompts">>,
+              <<E.val = cmd.want, "C16:not-exactly-the-command's-own-output">>,
+              <<pend = <<>>, "C16:text-left-pending-after-command">> >>)
+  /\ cmd' = NoCmd
+  /\ Step /\ UNCHANGED <<avars, obsHanded, rdy, recv0, tbl, owe>>
 
 \* file-like entry points are derived calls: their return value is a function of the outcome
 TFlRet ==
@@ -188,7 +221,7 @@ TFlRet ==
                    [] E.fn = "readline" -> IF last.kind = "match" THEN last.before \o last.after ELSE last.before
                    [] OTHER -> <<>>
      IN verdict' = IF E.val = want THEN "ok" ELSE "C01:file-like-return-value"
-  /\ Step /\ UNCHANGED <<avars, obsHanded, rdy, recv0, tbl, owe>>
+  /\ Step /\ UNCHANGED <<avars, obsHanded, rdy, recv0, tbl, owe, cmd>>
 
 \* the contract's own invariants are evaluated after every event (they hold by
 \* construction: a violation here is a bug of the specification, status 2)
@@ -197,11 +230,11 @@ TNextTrace ==
   /\ (l > Len(Ev) \/ verdict # "ok")
   /\ PrintT(<<"VERDICT", tid, Traces[tid].id, verdict, l>>)
   /\ tid < Len(Traces)
-  /\ tid' = tid + 1 /\ l' = 1 /\ verdict' = "ok" /\ obsHanded' = <<>> /\ rdy' = 0 /\ recv0' = 0 /\ tbl' = <<>> /\ owe' = FALSE
+  /\ tid' = tid + 1 /\ l' = 1 /\ verdict' = "ok" /\ obsHanded' = <<>> /\ rdy' = 0 /\ recv0' = 0 /\ tbl' = <<>> /\ owe' = FALSE /\ cmd' = NoCmd
   /\ recv' = <<>> /\ pend' = <<>> /\ handed' = <<>> /\ eof' = FALSE
   /\ phase' = "idle" /\ call' = NoCall /\ last' = NoOutcome
 
-TNext == TCall \/ TRunStart \/ TSend \/ TCb \/ TRunRet \/ TLate \/ TRead \/ TReadEof \/ TReadTmo \/ TReadErr \/ TSetBuf \/ TRet \/ TFlRet \/ TNextTrace
+TNext == TCall \/ TCmd \/ TKill \/ TCmdRet \/ TRunStart \/ TSend \/ TCb \/ TRunRet \/ TLate \/ TRead \/ TReadEof \/ TReadTmo \/ TReadErr \/ TSetBuf \/ TRet \/ TFlRet \/ TNextTrace
 
 TraceSpec == TInit /\ [][TNext]_tvars
 
